@@ -284,7 +284,39 @@ type trackEntry struct {
 	op goja.PromiseRejectionOperation
 }
 
+// probeAsyncStartInterrupt: an interrupt raised while asyncRunner.step() runs user code during the START of an async
+// function (a `then` / `constructor` getter reached through promiseResolve / resolve).  Afterwards the runtime must be idle
+// (call depth 0) and the next outermost call must run its promise job and leave the queue empty.
+func probeAsyncStartInterrupt() string {
+	srcs := []string{
+		`(async function(){ await {get then(){ INT(); return undefined }} })()`,
+		`(async function(){ return {get then(){ INT(); return undefined }} })()`,
+		`var p = Promise.resolve(1); Object.defineProperty(p, "constructor", {get(){ INT(); return Promise }}); (async function(){ await p })()`,
+	}
+	var out []string
+	for _, src := range srcs {
+		rt := goja.New()
+		rt.Set("INT", func() { rt.Interrupt("x") })
+		rt.RunString("var L=[]")
+		_, err := rt.RunString(src)
+		_, isInt := err.(*goja.InterruptedError)
+		d := rt.VerifC10CallDepth()
+		rt.ClearInterrupt()
+		rt.RunString(`Promise.resolve(1).then(function(){ L.push("job") }); 0`)
+		l, _ := rt.RunString(`L.join(",")`)
+		ls := ""
+		if l != nil {
+			ls = l.String()
+		}
+		out = append(out, fmt.Sprintf("int=%v depth=%d next-job=%q q=%d", isInt, d, ls, rt.VerifC10JobQueueLen()))
+	}
+	return strings.Join(out, " | ")
+}
+
 func runCase(line string) string {
+	if line == "PROBE async-start-interrupt" {
+		return probeAsyncStartInterrupt()
+	}
 	actOnly := false
 	if strings.HasPrefix(line, "ACT ") { // probe: answer with the AsyncContextTracker call log only
 		actOnly = true
